@@ -6,11 +6,22 @@
 //! change their readiness state (e.g. they get ready to write).
 
 use alloc::{collections::VecDeque, sync::Arc};
+#[cfg(not(all(test, aws_s2n_quic_verif_loom)))]
 use core::{
     sync::atomic::{AtomicBool, Ordering},
     task::{Context, Waker},
 };
+#[cfg(not(all(test, aws_s2n_quic_verif_loom)))]
 use std::{sync::Mutex, task::Wake};
+#[cfg(all(test, aws_s2n_quic_verif_loom))]
+use {
+    ::loom::sync::{
+        atomic::{AtomicBool, Ordering},
+        Mutex,
+    },
+    core::task::{Context, Waker},
+    std::task::Wake,
+};
 
 /// The shared state of the [`WakeupQueue`].
 #[derive(Debug)]
@@ -328,3 +339,7 @@ mod tests {
         pending.clear();
     }
 }
+
+#[cfg(all(test, aws_s2n_quic_verif, aws_s2n_quic_verif_loom))]
+#[path = "/verif/engines/loommc/transport_wakeup.rs"]
+mod verif_loommc;
